@@ -16,8 +16,16 @@ partial def parseT (j : Json) : Except String T := do
 partial def showT : T → Json
   | .node tg cs => Json.mkObj [("id", tg.id), ("c", Json.arr (cs.map showT).toArray)]
 
+def showCutDiag : CutDiag → Json
+  | .reversed => "reversed"
+  | .noStart => "nostart"
+  | .noEnd => "noend"
+
 def cut (j : Json) : Except String Json := do
   let ns ← (← arr j "nodes").toList.mapM parseT
+  let wantS := match bool j "want_s" with | .ok b => b | _ => false
+  let wantE := match bool j "want_e" with | .ok b => b | _ => false
+  let dg := Json.arr ((cutDiags wantS wantE ns).map showCutDiag).toArray
   -- hypotheses and right-hand side of theorem C06.cut_spec, evaluated on this very input
   let hyp := atomicL ns && decide ((unitsL ns).countP pS ≤ 1) && decide ((unitsL ns).countP pE ≤ 1) && !reversed (unitsL ns)
   let spec := Json.arr ((between (unitsL ns)).map (fun t => (t.id : Json))).toArray
@@ -25,8 +33,8 @@ def cut (j : Json) : Except String Json := do
   | .ok (out, s, e) =>
     pure (Json.mkObj [("ok", true), ("out", Json.arr (out.map showT).toArray), ("s", s), ("e", e),
       ("spec_hyp", hyp), ("atomic", atomicL ns), ("between", spec),
-      ("units_out", Json.arr ((unitsL out).map (fun t => (t.id : Json))).toArray)])
-  | .error m => pure (Json.mkObj [("ok", false), ("msg", m), ("spec_hyp", hyp), ("atomic", atomicL ns)])
+      ("units_out", Json.arr ((unitsL out).map (fun t => (t.id : Json))).toArray), ("diags", dg)])
+  | .error m => pure (Json.mkObj [("ok", false), ("msg", m), ("spec_hyp", hyp), ("atomic", atomicL ns), ("diags", dg)])
 
 partial def parseDoc (j : Json) : Except String Doc := do
   let id ← nat j "id"
